@@ -1944,6 +1944,14 @@ class Interp:
                     out.append((k_, [it_]))
             # each group is an iterator, as in Python: it can be consumed once and cannot be indexed or measured
             return [(k_, iter(g_)) for k_, g_ in out]
+        if d == "operator.itemgetter" and args and not kwargs:
+            idx = list(args)
+            if len(idx) == 1:
+                return PyFn(lambda I_, a, k: I_.getitem(a[0], idx[0]), "itemgetter")
+            return PyFn(lambda I_, a, k: tuple(I_.getitem(a[0], i_) for i_ in idx), "itemgetter")
+        if d == "operator.attrgetter" and len(args) == 1 and isinstance(args[0], str) and "." not in args[0]:
+            nm_ = args[0]
+            return PyFn(lambda I_, a, k: I_.getattr(a[0], nm_), "attrgetter")
         if d == "functools.partial" and args:
             f0, pre, prek = args[0], list(args[1:]), dict(kwargs)
             return PyFn(lambda I_, a, k: I_.call(f0, pre + list(a), {**prek, **k}), "partial")
